@@ -844,11 +844,55 @@ func escapes(root ssa.Value, v ssa.Value) bool {
 				return true
 			}
 		case *ssa.DebugRef:
+		case *ssa.MakeClosure:
+			// captured by a function literal that is only ever called on the spot (or, inside such a
+			// literal, deferred): the pointer is live only during that call, which havocs the cell
+			fn, _ := r.Fn.(*ssa.Function)
+			if fn == nil || !calledOnTheSpot(r, root != nil && isFreeVar(root)) {
+				return true
+			}
+			for i, b := range r.Bindings {
+				if b == v && (i >= len(fn.FreeVars) || escapes(fn.FreeVars[i], fn.FreeVars[i])) {
+					return true
+				}
+			}
 		default:
 			return true
 		}
 	}
 	return false
+}
+
+func isFreeVar(v ssa.Value) bool { _, ok := v.(*ssa.FreeVar); return ok }
+
+// calledOnTheSpot: every use of the closure value is as the callee of a call (or, when nested in
+// a literal that is itself called on the spot, of a defer, which runs before that literal returns).
+func calledOnTheSpot(mc *ssa.MakeClosure, allowDefer bool) bool {
+	refs := mc.Referrers()
+	if refs == nil {
+		return false
+	}
+	for _, r := range *refs {
+		switch r := r.(type) {
+		case *ssa.Call:
+			if r.Call.Value != ssa.Value(mc) {
+				return false
+			}
+			for _, a := range r.Call.Args {
+				if a == ssa.Value(mc) {
+					return false
+				}
+			}
+		case *ssa.Defer:
+			if !allowDefer || r.Call.Value != ssa.Value(mc) {
+				return false
+			}
+		case *ssa.DebugRef:
+		default:
+			return false
+		}
+	}
+	return true
 }
 
 func (g *Gen) edgeCond(p, b *ssa.BasicBlock) string {
@@ -923,6 +967,14 @@ func (g *Gen) translate() {
 	init := g.newBase(bInit)
 	init.id = 0
 	g.entry = &State{m: map[string]string{}, base: init}
+	if g.fc != nil {
+		for _, cl := range g.fc.Clauses {
+			if cl.Kind == "pathflag" { // ghost Booleans of this activation start false
+				g.keyDecl("L:pathflag."+cl.Label, "Bool")
+				g.entry.m["L:pathflag."+cl.Label] = "false"
+			}
+		}
+	}
 	g.st = g.entry.clone()
 
 	// parameters and free variables
